@@ -73,6 +73,16 @@ Proof.
   destruct (N.eqb_spec x c) as [E|E]; [exfalso; apply H; now left|]. cbn. apply IH. intros Hin. apply H. now right.
 Qed.
 
+(* between parsing and translation the statement's operand is resolved against the symbol table: a data directive's
+   non-negative numeric literal is left exactly as parsed, whatever the table holds *)
+Lemma resolve_pseudo_num s n i tb : n_neg n = false ->
+  resolve_operand (OPseudo s (VNum n)) i tb = Ok (OPseudo s (VNum n)).
+Proof.
+  intros Hneg. cbn [resolve_operand]. cbn [v_is_symbol v_is_expr orb]. rewrite andb_false_r. cbn [bind].
+  destruct (text_eqb (mnem i) RMB_t || text_eqb (mnem i) ORG_t); [|reflexivity].
+  cbn [v_is_numeric v_negative negb orb]. rewrite Hneg. reflexivity.
+Qed.
+
 Lemma lit_no_comma l : lit_ok l -> mem_c 44 (lit_text l) = false.
 Proof.
   intros Hl. apply mem_c_notin. destruct (lit_digits l Hl) as (c & ds & Hx & _ & Hn & _).
@@ -82,6 +92,7 @@ Qed.
 Theorem fcb_literal_line_emits_its_value f l :
   well_formed_fields f -> upper_t (lf_mn f) = FCB_t -> lf_ops f = lit_text l -> lit_ok l -> lit_value l <= 255 ->
   exists st p, parse_line (line_of f) = Ok (Some st) /\ s_label st = lf_label f /\
+    (forall tb, resolve_operand (s_operand st) (s_instr st) tb = Ok (s_operand st)) /\
     translate_operand (s_operand st) (s_instr st) = Ok p /\
     cp_size p = 1 /\ emit_value (cp_op p) = Ok [] /\ emit_value (cp_post p) = Ok [] /\
     emit_value (cp_add p) = Ok [lit_value l].
@@ -105,7 +116,7 @@ Proof.
   destruct (fcb_single_value i (lit_text l) (VNum n) _ Hfcb eq_refl Ht) as (_ & Hs & H1 & H2 & H3).
   rewrite <- Hm in Hi.
   exists (stmt_of f i (OPseudo (lit_text l) (VNum n))), (data_pkg a 1).
-  split; [exact (parse_ok f i _ Hf Hi Hsd Hc)|]. split; [reflexivity|]. split; [exact Ht|].
+  split; [exact (parse_ok f i _ Hf Hi Hsd Hc)|]. split; [reflexivity|]. split; [intros tb; exact (resolve_pseudo_num _ n i tb Hneg)|]. split; [exact Ht|].
   repeat split; try assumption.
   rewrite H3. unfold value_number. cbn [v_negative v_int]. rewrite Hneg, Hint.
   rewrite Z.mod_small by lia. now rewrite N2Z.id.
@@ -114,6 +125,7 @@ Qed.
 Theorem fdb_literal_line_emits_its_value f l :
   well_formed_fields f -> upper_t (lf_mn f) = FDB_t -> lf_ops f = lit_text l -> lit_ok l -> lit_value l <= 65535 ->
   exists st p, parse_line (line_of f) = Ok (Some st) /\ s_label st = lf_label f /\
+    (forall tb, resolve_operand (s_operand st) (s_instr st) tb = Ok (s_operand st)) /\
     translate_operand (s_operand st) (s_instr st) = Ok p /\
     cp_size p = 2 /\ emit_value (cp_op p) = Ok [] /\ emit_value (cp_post p) = Ok [] /\
     emit_value (cp_add p) = Ok [lit_value l / 256; lit_value l mod 256].
@@ -139,9 +151,39 @@ Proof.
   destruct (fdb_single_value i (lit_text l) (VNum n) _ Hfcb Hfdb eq_refl Ht) as (_ & Hs & H1 & H2 & H3).
   rewrite <- Hm in Hi.
   exists (stmt_of f i (OPseudo (lit_text l) (VNum n))), (data_pkg a 2).
-  split; [exact (parse_ok f i _ Hf Hi Hsd Hc)|]. split; [reflexivity|]. split; [exact Ht|].
+  split; [exact (parse_ok f i _ Hf Hi Hsd Hc)|]. split; [reflexivity|]. split; [intros tb; exact (resolve_pseudo_num _ n i tb Hneg)|]. split; [exact Ht|].
   repeat split; try assumption.
   rewrite H3. unfold value_number. cbn [v_negative v_int]. rewrite Hneg, Hint.
   rewrite Z.mod_small by lia.
   change 256%Z with (Z.of_N 256). rewrite <- N2Z.inj_div, <- N2Z.inj_mod, !N2Z.id. reflexivity.
+Qed.
+
+(* RMB n from the SOURCE LINE: any layout, a decimal or $hex literal in any spelling up to 32767: n zero bytes *)
+Theorem rmb_literal_line_reserves_zeros f l :
+  well_formed_fields f -> upper_t (lf_mn f) = RMB_t -> lf_ops f = lit_text l -> lit_ok l -> lit_value l <= 32767 ->
+  exists st p, parse_line (line_of f) = Ok (Some st) /\ s_label st = lf_label f /\
+    (forall tb, resolve_operand (s_operand st) (s_instr st) tb = Ok (s_operand st)) /\
+    translate_operand (s_operand st) (s_instr st) = Ok p /\
+    cp_size p = lit_value l /\ emit_value (cp_op p) = Ok [] /\ emit_value (cp_post p) = Ok [] /\
+    emit_value (cp_add p) = Ok (repeat 0 (N.to_nat (lit_value l))).
+Proof.
+  intros Hf Hm Ho Hl Hle.
+  destruct (find_instr RMB_t Tables.instructions) as [i|] eqn:Hi; [|vm_compute in Hi; discriminate].
+  assert (Hrow : Tables.is_string_define i = false /\ Tables.is_pseudo i = true /\ Tables.is_multi_byte i = false /\
+                 Tables.is_multi_word i = false /\ Tables.is_include i = false /\ text_eqb (mnem i) END_t = false /\
+                 Tables.is_pseudo_define i = false /\ Tables.is_16_bit i = false /\ text_eqb (mnem i) FCB_t = false /\
+                 text_eqb (mnem i) FDB_t = false /\ text_eqb (mnem i) RMB_t = true)
+    by (vm_compute in Hi; injection Hi as <-; repeat split; reflexivity).
+  destruct Hrow as (Hsd & Hps & Hmb & Hmw & Hinc & Hend & Hpd & H16 & Hfcb & Hfdb & Hrmb).
+  destruct (value_core_lit l None MExtended Hl) as (n & Hv & _ & Hint & Hneg).
+  assert (Hc : create_operand (lf_ops f) i = Ok (OPseudo (lit_text l) (VNum n))).
+  { rewrite Ho. unfold create_operand. rewrite Hps. unfold pseudo_operand. rewrite Hmb, Hmw, Hinc, Hend, Hpd. cbn [andb negb orb].
+    unfold create_value. rewrite Hsd, H16, (value_of_text_plain l false true Hl). rewrite Hv. reflexivity. }
+  assert (Hle' : v_int (VNum n) <= 32767) by (cbn [v_int]; rewrite Hint; exact Hle).
+  destruct (rmb_emits_zeros i (lit_text l) (VNum n) Hrmb Hfcb Hfdb Hle') as (p & Ht & Hs & H1 & H2 & H3).
+  cbn [v_int] in Hs, H3. rewrite Hint in Hs, H3.
+  rewrite <- Hm in Hi.
+  exists (stmt_of f i (OPseudo (lit_text l) (VNum n))), p.
+  split; [exact (parse_ok f i _ Hf Hi Hsd Hc)|]. split; [reflexivity|]. split; [intros tb; exact (resolve_pseudo_num _ n i tb Hneg)|]. split; [exact Ht|].
+  repeat split; assumption.
 Qed.
